@@ -228,6 +228,7 @@ def run_case(case):
 
     init = G.make_params(torch, run["shapes"], dt, tgen(*case["seed"], "init"), scale=run["grad_scale"])
     params, opt = fresh(init)
+    c01.execute.last_params = params
     desc = {"cfg": cfg, "shapes": run["shapes"], "groups": run["groups"], "T": T, "presence": run["presence"], "edits": run["edits"]}
     saved, traj = [], []
     obs = KernelObserver()
